@@ -94,7 +94,7 @@ CHECKS = {
     "C03": dict(
         technique="differential testing against an independent compiler (zic) over five source corpora (reconstructed, real 2025b, names, 576 enumerated era-boundary x rule sources, Hypothesis grammar); accounting invariant over the transformer output",
         text="Corpora: source reconstructed from the shipped tables, the vendored real 2025b release (443 zones; expansion validated "
-             "against zic on the original), a 'names' source (duplicate normalised names, links to removed zones), about 830 extended / 175 basic enumerated sources (hemisphere x next-era kind x STDOFF step x UNTIL form x AT suffix, era boundaries +-2 h / +-5 h around rule transitions in u/s/w, policies that start or stop around the era change, one-off extra rules in the month of a regular rule, January / December rules at an era change, month-end rules next to an era start, 3..5 transitions a year, policies starting around the first database year, weekday UNTIL forms); capacity probes (six transitions a year, seven eras a year) and Hypothesis-generated small sources (both scopes, varying year ranges). For every "
+             "against zic on the original), a 'names' source (duplicate normalised names, links to removed zones), about 860 extended / 190 basic enumerated sources (hemisphere x next-era kind x STDOFF step x UNTIL form x AT suffix, era boundaries +-2 h / +-5 h around rule transitions in u/s/w, policies that start or stop around the era change, one-off extra rules in the month of a regular rule, January / December rules at an era change, month-end rules next to an era start, 3..5 transitions a year, policies starting around the first database year, weekday UNTIL forms); era changes at the edges of the range, SAVE spelled '0:00'; capacity probes (six transitions a year, seven eras a year, a pool of nine) and Hypothesis-generated small sources (both scopes, varying year ranges). For every "
              "(source, scope): tzcompiler.py -> generated C++ tables compiled into the sweep driver (path A: 300 s stride + per-second "
              "windows at every oracle transition + field probes; thorough 60 s) and Extractor->Transformer->InlineGenerator->"
              "ZoneSpecifier in-process (path P) must equal zic's function over [start_year, until_year); every input zone/link/policy is "
